@@ -418,10 +418,11 @@ fn answer(a: &[&str]) -> String {
             let value = match a[6] {
                 "U8" => nums!(u8, U8), "U16" => nums!(u16, U16), "I16" => nums!(i16, I16), "U32" => nums!(u32, U32), "I32" => nums!(i32, I32),
                 "U64" => nums!(u64, U64), "I64" => nums!(i64, I64),
-                "Str" => { let s = String::from_utf8(unhex(vals[0])).unwrap(); raw.extend_from_slice(s.as_bytes()); PrimitiveValue::Str(s) }
+                // expected raw value: ISO 8859-1 of the text (identical to the UTF-8 bytes for ASCII text)
+                "Str" => { let s = String::from_utf8(unhex(vals[0])).unwrap(); raw.extend(s.chars().map(|c| c as u32 as u8)); PrimitiveValue::Str(s) }
                 "Strs" => {
                     let ss: Vec<String> = vals.iter().map(|x| String::from_utf8(unhex(x)).unwrap()).collect();
-                    raw.extend_from_slice(ss.join("\\").as_bytes());
+                    raw.extend(ss.join("\\").chars().map(|c| c as u32 as u8));
                     PrimitiveValue::Strs(ss.into_iter().collect())
                 }
                 "Tags" => {
@@ -550,12 +551,14 @@ fn answer(a: &[&str]) -> String {
                 }
             }
         }
-        // meta_len <presence mask of the 6 optional attributes> <10 field lengths> -> "L <recorded group length> <bytes that follow the group length element>"
+        // meta_len <presence mask of the 6 optional attributes> <9 field texts in hex> <private information length> -> "L <recorded group length> <bytes that follow the group length element>"
         "meta_len" => {
             use dicom_object::meta::FileMetaTable;
             let mask: u32 = a[1].parse().unwrap();
-            let n: Vec<usize> = a[2..].iter().map(|x| x.parse().unwrap()).collect();
-            let s = |k: usize| "1234567890"[..n[k]].to_string();
+            // fields 0..8: text in hex ('-' = empty); field 9: length of the private information
+            let texts: Vec<String> = a[2..11].iter().map(|x| String::from_utf8(unhex(x)).unwrap()).collect();
+            let n: Vec<usize> = vec![0, 0, 0, 0, 0, 0, 0, 0, 0, a[11].parse().unwrap()];
+            let s = |k: usize| texts[k].clone();
             let opt = |bit: u32, k: usize| if mask >> bit & 1 == 1 { Some(s(k)) } else { None };
             let mut t = FileMetaTable {
                 information_group_length: 0xDEAD,
